@@ -39,9 +39,11 @@ package cpuevict
 //@   ensures #be: forall j int :: {result[j]} 0 <= j && j < len(result) ==> apiext.podQoS(result[j].Pod) == apiext.QoSBE
 //@   ensures #policy: forall j int :: {result[j]} 0 <= j && j < len(result) ==> qosmanagerUtil.policyAllowed(evictionPolicy, result[j].Pod)
 //@   ensures #from: forall j int :: {result[j]} 0 <= j && j < len(result) ==> (exists i int :: 0 <= i && i < len(pods) && pods[i].Pod == result[j].Pod)
+//@   ensures #evictionpriority: forall j int :: {result[j]} 0 <= j && j < len(result) ==> result[j].EvictionPriority == apiext.podEvictionPrio(result[j].Pod)    // first sort key = the parsed annotation (0 when unset / invalid)
 //@   option observers Pod
 //@   loop 1 invariant 0 <= $i && $i <= len(pods)
 //@   loop 1 invariant forall j int :: {bePodInfos[j]} 0 <= j && j < len(bePodInfos) ==> bePodInfos[j] != nil
+//@   loop 1 invariant forall j int :: {bePodInfos[j]} 0 <= j && j < len(bePodInfos) ==> fresh(bePodInfos[j]) && bePodInfos[j].EvictionPriority == apiext.podEvictionPrio(bePodInfos[j].Pod)
 //@   loop 1 invariant forall j int :: {bePodInfos[j]} 0 <= j && j < len(bePodInfos) ==> apiext.podQoS(bePodInfos[j].Pod) == apiext.QoSBE
 //@   loop 1 invariant forall j int :: {bePodInfos[j]} 0 <= j && j < len(bePodInfos) ==> qosmanagerUtil.policyAllowed(evictionPolicy, bePodInfos[j].Pod)
 //@   loop 1 invariant forall j int :: {bePodInfos[j]} 0 <= j && j < len(bePodInfos) ==> (exists i int :: 0 <= i && i < $i && pods[i].Pod == bePodInfos[j].Pod)
@@ -58,3 +60,38 @@ package cpuevict
 //@   requires apiext.rangesOK() && apiext.DefaultPriorityClass == apiext.PriorityNone
 //@   requires thresholdConfig != nil && thresholdConfig.AllocatableEvictPriorityThreshold != nil
 //@   ensures #eligible: forall j int :: {result[j]} 0 <= j && j < len(result) ==> result[j] != nil && result[j].Priority <= old(deref(thresholdConfig.AllocatableEvictPriorityThreshold)) && result[j].Priority == apiext.podPrioValue(result[j].Pod) && apiext.evictEnabled(result[j].Pod) && qosmanagerUtil.policyAllowed(evictionPolicy, result[j].Pod)
+
+// ---- published victim order: the sort.Slice comparators ----
+// sort.Slice itself is not modelled; each comparator ("element i goes before element j") carries its functional contract.
+// Priority-threshold lists: eviction priority (annotation koordinator.sh/eviction-priority) ascending, then pod priority
+// ascending, then the koordinator.sh/priority label ascending, then the strategy's sub-order (the closure passed by
+// ...ByUsed / ...ByAllocatable below: milli-CPU used resp. milli-CPU request descending), which is consulted on a full tie only.
+//@ func (*cpuEvictor).getPodEvictInfoAndSortByPriority$1 [C11]
+//@   let a = deref($fv_podsInfos)[i]
+//@   let b = deref($fv_podsInfos)[j]
+//@   ensures #order: result <==> (a.EvictionPriority < b.EvictionPriority || (a.EvictionPriority == b.EvictionPriority && (a.Priority < b.Priority || (a.Priority == b.Priority && (a.LabelPriority < b.LabelPriority || (a.LabelPriority == b.LabelPriority && lastresult("subSortFun")))))))
+//@   ensures #sub: calls("subSortFun") == (a.EvictionPriority == b.EvictionPriority && a.Priority == b.Priority && a.LabelPriority == b.LabelPriority ? 1 : 0)
+//@   assert before call subSortFun: #subargs: $arg0 == a && $arg1 == b
+//@   modifies nothing
+//@   option observers subSortFun
+
+// MemoryEvict / CPUEvict: among equal priorities the pod using more goes first.
+//@ func (*cpuEvictor).getPodEvictInfoAndSortByUsed$1 [C11]
+//@   ensures #order: result <==> a.MilliCPUUsed > b.MilliCPUUsed
+//@   modifies nothing
+
+// MemoryAllocatableEvict / CPUAllocatableEvict: among equal priorities the pod requesting more goes first.
+//@ func (*cpuEvictor).getPodEvictInfoAndSortByAllocatable$1 [C11]
+//@   ensures #order: result <==> a.MilliCPURequest > b.MilliCPURequest
+//@   modifies nothing
+
+// BE CPU list: eviction priority (parsed annotation, see #evictionpriority of getBEPodEvictInfoAndSort) ascending, then
+// pod priority ascending when both pods carry one and they differ, otherwise CPU usage/request ratio descending.
+//@ func (*cpuEvictor).getBEPodEvictInfoAndSort$1 [C11]
+//@   let a = deref($fv_bePodInfos)[i]
+//@   let b = deref($fv_bePodInfos)[j]
+//@   let pa = a.Pod.Spec.Priority
+//@   let pb = b.Pod.Spec.Priority
+//@   let byprio = pa != nil && pb != nil && deref(pa) != deref(pb)
+//@   ensures #order: result <==> (a.EvictionPriority != b.EvictionPriority ? a.EvictionPriority < b.EvictionPriority : (byprio ? deref(pa) < deref(pb) : a.CpuUsage > b.CpuUsage))
+//@   modifies nothing
